@@ -362,3 +362,25 @@ for _p, _t in {
         'the predicate after every wait.',
 }.items():
     ADDED[_p] = ADDED.get(_p, '') + _t
+
+# round 8 (DESIGN.md section 23)
+for _p, _t in {
+ 'C01': ' Only the handle classes remove cache entries; a result for a cached job always reaches the handle; a handle is '
+        'ready before its callbacks run.',
+ 'C04': ' Whether a worker exited is decided by waitpid alone (poll and the reaper); a result for a suspected job reaches '
+        'the handle.',
+ 'C05': ' The worker looks at the exit-requested flag before the next job.',
+ 'C06': ' close() / join() neither flag nor wait for the scanner.',
+ 'C08': ' Every handler thread the finalizer is given is bound in __init__ only.',
+ 'C09': ' Every worker gets a fresh consumed-results counter; the reaper asks every worker for its exit code.',
+ 'C10': ' Each retired worker shrinks the semaphore by one.',
+ 'C11': ' The limiter reads the clock itself; the refill gets the reaper\'s result.',
+ 'C12': ' A stand-in nests another of its kind only under a depth bound.',
+ 'C13': ' Header and payload are both read through the read-exactly loop.',
+ 'C15': ' A synchronized array hands out the element itself, not a copy.',
+ 'C16': ' The feeder sleeps only after finding the buffer empty under the lock.',
+ 'C17': ' The after-fork hook never releases or acquires the shared semaphore.',
+ 'C19': ' No answer of poll() before waitpid; process._children is a fresh own set in every process.',
+ 'C20': ' A proxy call reads its reply before anything else; RebuildProxy takes no reference while inheriting.',
+}.items():
+    ADDED[_p] = ADDED.get(_p, '') + _t
